@@ -41,11 +41,16 @@ pub fn cfg_from_json(v: &Value) -> Option<YuvConfig> {
 /// 4:4:4 frame of size (w,h) with `Plane::new` padding (xpad,ypad), filled from code triples in
 /// row-major order; padding samples keep v_frame's default fill.
 pub fn frame444<T: Pixel>(codes: &[[u16; 3]], w: usize, h: usize, xpad: usize, ypad: usize) -> Frame<T> {
+    frame444_pads(codes, w, h, [(xpad, ypad); 3])
+}
+
+/// same, with an independent padding (hence stride / origin) per plane
+pub fn frame444_pads<T: Pixel>(codes: &[[u16; 3]], w: usize, h: usize, pads: [(usize, usize); 3]) -> Frame<T> {
     assert_eq!(codes.len(), w * h);
     let mut planes = [
-        Plane::<T>::new(w, h, 0, 0, xpad, ypad),
-        Plane::<T>::new(w, h, 0, 0, xpad, ypad),
-        Plane::<T>::new(w, h, 0, 0, xpad, ypad),
+        Plane::<T>::new(w, h, 0, 0, pads[0].0, pads[0].1),
+        Plane::<T>::new(w, h, 0, 0, pads[1].0, pads[1].1),
+        Plane::<T>::new(w, h, 0, 0, pads[2].0, pads[2].1),
     ];
     for (pi, plane) in planes.iter_mut().enumerate() {
         let stride = plane.cfg.stride;
